@@ -20,13 +20,20 @@ RULE = ("random parsers of 2-5 `store` optionals (nargs None/?/*/+/1/2/3, type i
         "values); the first block enumerates each nargs x k tokens x {sep,eq} on a one-option parser and the empty argv on every "
         "parser shape. Observed: parse_known_args and parse_args (vars(namespace) in order, leftovers, or exit status) and "
         "parse_known_args on the twin argv whose `=`/glued groups are written as two tokens. Never generated: the bare `--` token, "
-        "`opt=--`. Non-trivial = non-empty argv; distinct by full case.")
+        "`opt=--`. Second half of the stream: parsers mixing 1-3 optionals with 0-3 POSITIONALS (nargs None/1/2/?/*/+, type int|str, "
+        "choices, defaults None/int/str/list given or not, declared at random places among the optionals); argv = the positionals' blocks "
+        "in declaration order placed at random boundaries between option groups, then 0-2 mutations (too few / too many tokens, a block "
+        "split by an unknown option, two segments swapped, a block dropped, a bad value, or one of the option mutations above); first, "
+        "every nargs kind alone x 0-4 tokens x 5 surroundings and every PAIR of nargs kinds x 0-5 tokens (the backtracking of the pattern "
+        "match; in the thorough tier also with an option at every cut). `required` of a positional is read off the real parser. "
+        "Non-trivial = non-empty argv; distinct by full case.")
 TRUSTED = ["the parser under test is CPython's own argparse module as imported by /venv/bin/python (add_help=False, default "
            "exit_on_error, prefix_chars '-')",
            "Python int() on the generated ASCII tokens is modelled by Model/Leaf.v py_int (sign, blanks around, single underscores)"]
 ASSUMPTIONS = ["outside the model and never generated: bare `--`, positionals, sub-commands, REMAINDER/PARSER nargs, zero-argument "
                "actions (store_true/count/help, hence clustering of single-dash flags such as -xyz), fromfile_prefix_chars, "
-               "exit_on_error=False, mutually exclusive groups, two actions sharing a dest, non-ASCII digits",
+               "exit_on_error=False, mutually exclusive groups, two actions sharing a dest, non-ASCII digits, a `*` positional with both choices "
+               "and a non-None default (argparse tests the default object itself against the choices)",
                "option strings are pairwise distinct, start with '-', have length >= 2; nargs=N has N >= 1"]
 
 LONGS = ["--foo", "--foobar", "--fo", "--bar", "--baz", "--ba", "--num", "--name", "--n", "--x", "--level", "--lev",
@@ -244,7 +251,7 @@ def gen(tier, seed):
                         for sp, w in (("sep+eq", "--opt"), ("glued", "-o"), ("abbr+eq", "--op")):
                             cases.append(finish_case(True, acts, [{"act": 0, "opt": w, "written": w, "toks": toks, "spell": sp},
                                                                   {"spell": "raw", "toks": tail}], "enum", []))
-    n = len(cases) + (2600 if tier == "quick" else 39600)
+    n = len(cases) + (1250 if tier == "quick" else 19500)
     while len(cases) < n:
         acts = gen_parser(rng)
         ab = rng.random() < 0.85
@@ -266,6 +273,143 @@ def gen(tier, seed):
                 segs, m = mutate(rng, acts, segs)
                 muts.append(m)
         case = finish_case(ab, acts, segs, kind, muts)
+        if excluded(case):
+            continue
+        cases.append(case)
+    cases += gen_positional(tier, seed)
+    return cases
+
+
+# --------------------------------------------------------------------------------------------------
+# positionals
+
+
+def pos_action(i, nargs, ty="int", choices=None, default=None, dflt_given=False):
+    return {"opts": [], "dest": f"p{i}", "nargs": nargs, "type": ty, "choices": choices,
+            "default": default if default is not None else {"t": "none"}, "dflt_given": dflt_given, "required": None}
+
+
+def gen_pos_action(rng, i):
+    nargs = rng.choice([None, None, 1, 2, "?", "?", "*", "+"])
+    ty = rng.choice(["int", "str"])
+    choices = None
+    if rng.random() < 0.15:
+        base = [1, 5, 7, -3, 12] if ty == "int" else ["a", "b", "abc", "a b", "5"]
+        choices = [_val(ty, x) for x in rng.sample(base, 3)]
+    default, given = None, False
+    r = rng.random()
+    if nargs in ("?", "*"):
+        if r < 0.3:
+            given = rng.random() < 0.5
+        elif r < 0.45:
+            default, given = _val("int", rng.choice([0, 3])), True
+        elif r < 0.8:
+            default, given = _val("str", rng.choice(["7", "abc", " 3 ", "5", "a"])), True
+        else:
+            default, given = {"t": "list", "v": [_val(ty, 1 if ty == "int" else "z")] * rng.randint(0, 2)}, True
+        if nargs == "*" and choices is not None:
+            default, given = None, rng.random() < 0.5          # outside the model otherwise
+    elif r < 0.2:
+        default, given = _val("str", rng.choice(["7", "abc"])), True
+    return pos_action(i, nargs, ty, choices, default, given)
+
+
+def pos_block(rng, a, k=None):
+    if k is None:
+        k = good_count(rng, a["nargs"])
+    return {"spell": "raw", "toks": [good_token(rng, a) for _ in range(k)], "pos": a["dest"]}
+
+
+def gen_positional(tier, seed):
+    rng = random.Random(f"ARGP-pos-{seed}")
+    cases = []
+    other = {"opts": ["--other", "-o"], "dest": "d9", "nargs": None, "type": "int", "choices": None,
+             "default": _val("str", "3"), "required": False}
+    star = {"opts": ["--many"], "dest": "d8", "nargs": "*", "type": "str", "choices": None,
+            "default": {"t": "none"}, "required": False}
+    kinds = [None, 1, 2, "?", "*", "+"]
+    # every nargs kind alone x number of tokens x what stands around the run
+    for na in kinds:
+        for k in range(0, 5):
+            for shape in range(5):
+                acts = [pos_action(0, na, "str", None, _val("str", "dflt") if na in ("?", "*") else None, na in ("?", "*")), other, star]
+                toks = [f"v{j}" for j in range(k)]
+                argv = [toks, ["--other", "1"] + toks, toks + ["--other", "1"], toks[:1] + ["--other", "1"] + toks[1:],
+                        ["--many"] + toks + ["--other", "2"]][shape]
+                cases.append({"abbrev": True, "acts": acts, "argv": argv, "kind": "pos-enum", "muts": []})
+    # every pair of nargs kinds x number of tokens (backtracking of the pattern match), with and without an option between
+    for na1 in kinds:
+        for na2 in kinds:
+            for k in range(0, 6):
+                acts = [pos_action(0, na1, "str"), other, pos_action(1, na2, "str")]
+                toks = [f"v{j}" for j in range(k)]
+                cases.append({"abbrev": True, "acts": acts, "argv": toks, "kind": "pos-enum", "muts": []})
+                if k >= 1 and tier == "thorough":
+                    for cut in range(0, k + 1):
+                        cases.append({"abbrev": True, "acts": acts, "argv": toks[:cut] + ["-o", "4"] + toks[cut:], "kind": "pos-enum", "muts": []})
+    n = len(cases) + (1100 if tier == "quick" else 18600)
+    while len(cases) < n:
+        opts = gen_parser(rng)[: rng.randint(1, 3)]
+        npos = rng.choice([0, 1, 1, 2, 2, 3])
+        poss = [gen_pos_action(rng, i) for i in range(npos)]
+        # declaration order: positionals spread among the optionals
+        acts = list(opts)
+        for a in poss:
+            acts.insert(rng.randint(0, len(acts)), a)
+        order = [a["dest"] for a in acts if not a["opts"]]
+        poss.sort(key=lambda a: order.index(a["dest"]))
+        # re-number so that declaration order is p0, p1, ... is NOT required; keep names
+        ab = rng.random() < 0.85
+        oi = [i for i, a in enumerate(acts) if a["opts"] and (a["required"] or rng.random() < 0.5)]
+        rng.shuffle(oi)
+        segs = [make_segment(rng, acts, i, None) for i in oi]
+        for s_ in segs:
+            if s_["spell"].startswith("abbr") and rng.random() < 0.5:
+                s_["spell"] = s_["spell"].replace("abbr", "sep")
+                s_["written"] = s_["opt"]
+        # the blocks of the positionals, in declaration order, at random places between the groups
+        places = sorted(rng.randint(0, len(segs)) for _ in poss)
+        out, bi = [], 0
+        for j in range(len(segs) + 1):
+            while bi < len(poss) and places[bi] == j:
+                out.append(pos_block(rng, poss[bi]))
+                bi += 1
+            if j < len(segs):
+                out.append(segs[j])
+        segs = out
+        r = rng.random()
+        kind, muts = "pos-valid", []
+        if r > 0.3:
+            kind = "pos-mutated"
+            for _ in range(rng.choice([1, 2, 2])):
+                m = rng.choice(["few", "many", "split", "swap", "opt-mutation", "opt-mutation", "drop-block", "badvalue"])
+                blocks = [j for j, s_ in enumerate(segs) if s_.get("pos")]
+                if m == "opt-mutation" or not blocks:
+                    segs, mm = mutate(rng, acts, segs)
+                    m = "opt:" + mm
+                else:
+                    j = rng.choice(blocks)
+                    b = dict(segs[j])
+                    if m == "few":
+                        b["toks"] = b["toks"][:-1]
+                    elif m == "many":
+                        b["toks"] = b["toks"] + [rng.choice(["x", "9", "-4"])] * rng.choice([1, 2])
+                    elif m == "badvalue":
+                        b["toks"] = [rng.choice(["abc", "1.5", "zz", ""])] + b["toks"][1:]
+                    elif m == "drop-block":
+                        b["toks"] = []
+                    elif m == "split" and len(b["toks"]) >= 2:
+                        segs = segs[:j] + [dict(b, toks=b["toks"][:1]), {"spell": "raw", "toks": ["--zzz"]}, dict(b, toks=b["toks"][1:])] + segs[j + 1:]
+                        muts.append(m)
+                        continue
+                    elif m == "swap" and j + 1 < len(segs):
+                        segs = segs[:j] + [segs[j + 1], b] + segs[j + 2:]
+                        muts.append(m)
+                        continue
+                    segs = segs[:j] + [b] + segs[j + 1:]
+                muts.append(m)
+        argv = [t for s_ in segs for t in seg_tokens(s_)]
+        case = {"abbrev": ab, "acts": acts, "argv": argv, "kind": kind, "muts": muts}
         if excluded(case):
             continue
         cases.append(case)
@@ -308,13 +452,18 @@ def build_parser(case):
 
     p = argparse.ArgumentParser(prog="p", add_help=False, allow_abbrev=case["abbrev"])
     for a in case["acts"]:
-        kw = {"dest": a["dest"], "type": int if a["type"] == "int" else str, "default": _pyval(a["default"]),
-              "required": a["required"]}
+        kw = {"type": int if a["type"] == "int" else str}
         if a["nargs"] is not None:
             kw["nargs"] = a["nargs"]
         if a["choices"] is not None:
             kw["choices"] = [_pyval(c) for c in a["choices"]]
-        p.add_argument(*a["opts"], **kw)
+        if a["opts"]:
+            kw.update(dest=a["dest"], default=_pyval(a["default"]), required=a["required"])
+            p.add_argument(*a["opts"], **kw)
+        else:
+            if a.get("dflt_given"):
+                kw["default"] = _pyval(a["default"])
+            p.add_argument(a["dest"], **kw)          # a positional: argparse derives `required` itself
     return p
 
 
@@ -337,7 +486,8 @@ def run_impl(cases):
             return outcome_of(go)[:2]
 
         k, msg = known(case["argv"])
-        o = {"known": k, "args": args(case["argv"]), "msg": msg}
+        o = {"known": k, "args": args(case["argv"]), "msg": msg,
+             "req": [bool(x.required) for x in build_parser(case)._actions]}
         if "twin" in case:
             o["twin"] = known(case["twin"])[0]
         out.append(o)
@@ -352,6 +502,8 @@ def _expected_groups(case):
     """If argv is a concatenation of exactly-spelled options each followed by tokens that do not start with '-'
     (a sub-case of ArgparseMSpec.recognise), return what parse_args must answer: ("ok", {dest: value}) or ("exit",)."""
     acts = case["acts"]
+    if any(not a["opts"] for a in acts):
+        return None                     # positionals: judged by the Coq specification only
     table = {o: i for i, a in enumerate(acts) for o in a["opts"]}
     groups = []
     for t in case["argv"]:
@@ -441,7 +593,7 @@ def nontrivial(case, obs):
 
 
 def features(case, obs):
-    d = {"kind": case["kind"], "nacts": len(case["acts"]), "argv_len": min(len(case["argv"]), 12),
+    d = {"kind": case["kind"], "nacts": len(case["acts"]), "npos": sum(1 for a in case["acts"] if not a["opts"]), "argv_len": min(len(case["argv"]), 12),
          "known": obs["known"][0], "args": obs["args"][0], "abbrev": case["abbrev"], "twin": "twin" in case,
          "groups_recognised_py": _expected_groups(case) is not None}
     for m in case["muts"][:1]:
@@ -492,7 +644,9 @@ def nargs_coq(n):
     return {"?": "NaOpt", "*": "NaStar", "+": "NaPlus"}[n]
 
 
-def act_coq(a):
+def act_coq(a, req=None):
+    if req is not None:
+        a = dict(a, required=req)
     ch = "None" if a["choices"] is None else copt(clist([ival_coq(c) for c in a["choices"]]))
     return (f"(mkact {cstrlist(a['opts'])} {cstr(a['dest'])} {nargs_coq(a['nargs'])} {'CInt' if a['type'] == 'int' else 'CStr'} "
             f"{ch} {stored_coq(a['default'], default=True)} {cbool(a['required'])})")
@@ -522,7 +676,7 @@ def to_coq(case, obs):
     twin = "None"
     if "twin" in case:
         twin = copt(cpair(cstrlist(case["twin"]), known_coq(obs["twin"])))
-    return (f"mkcase {cbool(case['abbrev'])} {clist([act_coq(a) for a in case['acts']])} {cstrlist(case['argv'])} "
+    return (f"mkcase {cbool(case['abbrev'])} {clist([act_coq(a, r) for a, r in zip(case['acts'], obs['req'])])} {cstrlist(case['argv'])} "
             f"{known_coq(obs['known'])} {args_coq(obs['args'])} {twin}")
 
 
